@@ -48,6 +48,7 @@ class Network781:
         self.rig = Rig(seed=4, profile=W.Profile(spi_overhead=10000, spi_byte=400, pin=1000,
                                                  timecall=500, jitter=0.0))
         self.node = self.rig.node
+        self.rig.world.horizon = 1 << 60  # one MCU thread drives 781 nodes for a long virtual time
         self.objs = {}
         self.radios = {}
         self.byname = {}
